@@ -798,3 +798,16 @@ impl Check for C03 {
         format!("worker-died-on-network-input:{}", how)
     }
 }
+
+// generators shared with C15
+pub fn mutate_for_c15(rng: &mut Rng, b: Vec<u8>) -> Vec<u8> {
+    mutate(rng, b)
+}
+
+pub fn hostile_for_c15(rng: &mut Rng, chunk_size: usize) -> Vec<u8> {
+    hostile_chunks(rng, chunk_size)
+}
+
+pub fn gen_stream_for_c15(gen: usize, rng: &mut Rng, enc: &mut Encoder, stream_hint: u32) -> Vec<u8> {
+    gen_stream(gen, rng, enc, stream_hint)
+}
